@@ -207,8 +207,9 @@ class Run:
         for pname, lst in self.bars_by_pair.items():
             p = self.pairs[pname]
             src = event.FifoQueueEventSource()
+            dur = datetime.timedelta(hours=sc.get("bar_hours", {}).get(pname, 1))
             for (when, o, h, low, c, vol) in lst:
-                src.push(bar.BarEvent(when, bar.Bar(when - datetime.timedelta(hours=1), p, o, h, low, c, vol)))
+                src.push(bar.BarEvent(when, bar.Bar(when - dur, p, o, h, low, c, vol)))
             self.e.add_bar_source(src)
         for pname in self.bars_by_pair:
             self.e.subscribe_to_bar_events(self.pairs[pname], self._mk_strategy(pname))
@@ -1289,6 +1290,7 @@ class Run:
                     fills[(m["pair"], when)][oid] = fills[(m["pair"], when)].get(oid, ZERO) + d
                 if not oi.is_open and oid not in close_when:
                     close_when[oid] = when
+        doomed: Dict[str, str] = {}
         for pname, lst in self.bars_by_pair.items():
             bp, qp = self.pair_prec(pname)
             orders = [i for i in self.order_seq if self.meta[i]["pair"] == pname]
@@ -1308,6 +1310,11 @@ class Run:
                         self.v("C08", "liquidity_exceeded", f"{pname} bar {when}: filled {total} > {L} ({self.liq[0]}% of {vol})")
                     rem = L
                     released: Dict[str, D] = collections.defaultdict(D)   # holds freed by orders killed earlier in this bar
+                    for i, got_i in f.items():
+                        if i in doomed and got_i > 0:
+                            self.v("C08", "all_or_nothing_order_filled_after_insufficient_bar",
+                                   f"{self.meta[i]['kind']} order needed more than the liquidity left in its first bar "
+                                   f"({doomed[i]}) yet was filled {got_i} by the bar of {when}")
                     for i in live:
                         m = self.meta[i]
                         got = f.get(i, ZERO)
@@ -1321,7 +1328,11 @@ class Run:
                                    f"{m['kind']} needing {pending} filled {got} with only {rem} left in bar {when}")
                         if got > 0 and len(live) > 1:
                             self.sig.add(("competing", min(len(live), 6), got < pending))
-                        if m["kind"] == "market" and got == 0 and 0 < pending <= rem:
+                        if m["kind"] in ("market", "stop") and pending > rem and i not in doomed and filled_before == 0:
+                            doomed[i] = f"bar {when}: needed {pending}, {rem} left"
+                        triggered = m["kind"] == "market" or (m["kind"] == "stop" and (
+                            (m["side"] == "buy" and h >= m["stop"]) or (m["side"] == "sell" and low <= m["stop"])))
+                        if triggered and got == 0 and 0 < pending <= rem:
                             self.check_fits_but_unfilled(i, m, pname, when, (o_, h, low, c, vol), pending, rem, fills, released)
                         if m["kind"] in ("market", "stop") and got == 0 and close_when.get(i) == when:
                             for sym, val in self._reservation_before(i, when).items():
@@ -1439,7 +1450,7 @@ class Run:
         if ok and q(pending * low, qp) > 0:
             self.stats["fits_and_fundable_but_unfilled"] += 1
             self.v("C08", "order_that_fits_not_filled",
-                   f"market {m['side']} of {pending} {pname} fits the {rem_liq} left in bar {when} (V{vol}) and its funds "
+                   f"{m['kind']} {m['side']} of {pending} {pname} fits the {rem_liq} left in bar {when} (V{vol}) and its funds "
                    f"were sufficient (reservation {own}, free {free}), yet it was not filled")
 
     def _classify_survivor(self) -> str:
